@@ -1183,7 +1183,7 @@ class Embed(Module):
     )
     assert embedding is not None
     if self.num_embeddings == 1:
-      return jnp.broadcast_to(embedding, inputs.shape + (self.features,))
+      return jnp.broadcast_to(embedding[0], inputs.shape + (self.features,))
     return jnp.take(embedding, inputs, axis=0)
 
   def attend(self, query: Array) -> Array:
